@@ -140,7 +140,7 @@ impl TypeChecker {
 
         // Check methods
         for method in &model.methods {
-            self.check_method(&method.node, &model.name);
+            self.check_concrete_method(method, &model.name);
         }
 
         if has_validate {
@@ -338,7 +338,7 @@ impl TypeChecker {
 
         // Check methods
         for method in &class.methods {
-            self.check_method(&method.node, &class.name);
+            self.check_concrete_method(method, &class.name);
         }
 
         self.symbols.exit_scope();
@@ -464,9 +464,7 @@ impl TypeChecker {
 
         // Check methods (reuse the standard method-checking logic so parameters are in scope).
         for method in &nt.methods {
-            if method.node.body.is_some() {
-                self.check_method(&method.node, &nt.name);
-            }
+            self.check_concrete_method(method, &nt.name);
         }
     }
 
@@ -514,6 +512,16 @@ impl TypeChecker {
 
         self.current_return_error_type = None;
         self.symbols.exit_scope();
+    }
+
+    /// Check a method of a model, class or newtype: unlike a trait method it must have a body (the backend has nothing
+    /// to emit for a body-less method outside a trait declaration).
+    fn check_concrete_method(&mut self, method: &Spanned<MethodDecl>, owner: &str) {
+        if method.node.body.is_none() {
+            self.errors
+                .push(errors::method_without_body(owner, &method.node.name, method.span));
+        }
+        self.check_method(&method.node, owner);
     }
 
     pub(crate) fn check_method(&mut self, method: &MethodDecl, owner: &str) {
